@@ -343,9 +343,157 @@ def apply_malformation(case, cols) -> dict:
     return cols
 
 
+# ------------------------------------------------------------------------------------------
+# crossed catalogues: identifier malformation x identifier dtype, and bad cell x column role x container dtype
+
+
+class NotConstructible(Exception):
+    """The combination cannot be written down in pandas (e.g. a missing value in an int64 column)."""
+
+
+#: dtype class of every identifier alphabet (goes into the signature)
+ID_DTYPE_CLASS = {"str": "object", "numstr": "object", "int": "int64", "string": "string", "Int64": "Int64",
+                  "cat": "category", "cat_int": "category", "cat_unused": "category"}
+
+#: identifier malformation -> scope; the column keeps the dtype of the identifier alphabet of the case
+ID_MALFORMATIONS = {
+    "missing_nan": "row", "missing_None": "row", "missing_pd_NA": "row",
+    "empty_text": "row", "negative_int": "row", "float": "col", "fractional_float": "row", "mixed_text_and_int": "row",
+}
+
+
+def id_malformed_column(case, name, i):
+    """The ID column of the case with identifier malformation `name` at row i, in the dtype of case['idtype']."""
+    idtype = case["idtype"]
+    spec = ID_TYPES[idtype]
+    cls = ID_DTYPE_CLASS[idtype]
+    labels = [spec["labels"][k] for k, _ in case["rows"]]
+    is_int = isinstance(spec["labels"][0], int)
+
+    def wrap(vals, *, floats=False):
+        if cls == "category":
+            cats = list(spec["categories"]) or None
+            present = [v for v in dict.fromkeys(vals) if v is not None and v is not pd.NA and v == v]
+            if cats is None:
+                try:
+                    cats = sorted(present)
+                except TypeError:  # mixed labels
+                    cats = present
+            else:
+                cats = cats + [v for v in present if v not in cats]
+            return pd.Categorical([None if (v is None or v is pd.NA or v != v) else v for v in vals], categories=cats)
+        if cls == "string":
+            return pd.array(vals, dtype="string")
+        if cls == "Int64":
+            return pd.array(vals, dtype="Float64" if floats else "Int64")
+        if cls == "int64":
+            return np.array(vals, dtype="float64" if floats else "int64")
+        return np.array(vals, dtype=object)
+
+    if name.startswith("missing_"):
+        token = {"missing_nan": NAN, "missing_None": None, "missing_pd_NA": pd.NA}[name]
+        if cls == "int64":
+            raise NotConstructible("int64 cannot hold a missing value")
+        if cls != "object" and name != "missing_pd_NA":
+            raise NotConstructible("one missing marker per extension dtype (listed under missing_pd_NA)")
+        labels[i] = token
+        return wrap(labels)
+    if name == "empty_text":
+        if is_int:
+            raise NotConstructible("integer identifiers cannot be empty text")
+        labels[i] = ""
+        return wrap(labels)
+    if name == "negative_int":
+        if not is_int:
+            raise NotConstructible("text identifiers: '-1' is a valid text label")
+        labels[i] = -1 - labels[i]
+        return wrap(labels)
+    if name in ("float", "fractional_float"):
+        if not is_int:
+            raise NotConstructible("text identifiers")
+        vals = [float(v) for v in labels]
+        if name == "fractional_float":
+            vals[i] += 0.5
+        return wrap(vals, floats=True)
+    if name == "mixed_text_and_int":
+        if cls in ("string", "Int64"):
+            raise NotConstructible("extension dtype holds one kind of label")
+        labels[i] = "S7" if is_int else 3
+        if cls == "int64":
+            return np.array(labels, dtype=object)
+        return wrap(labels)
+    raise ValueError(name)
+
+
+#: column role -> (layouts, column name, integer valued?)
+CELL_ROLES = {
+    "TIME": (VISITS, "TIME", False),
+    "value": (VISITS, "Y0", False),
+    "event_time": (("event", "joint"), ET, False),
+    "event_indicator": (("event", "joint"), EB, True),
+    "covariate": (("covariate",), "COV", True),
+}
+CELL_BAD = ("missing", "plus_inf", "minus_inf", "text")
+CELL_CONTAINERS = ("float64", "float32", "Float64", "Int64", "object", "string", "category")
+
+
+def cell_malformed_column(case, role, bad, container, i):
+    """Column `role` of the case with the bad cell at row i, stored in `container` dtype."""
+    _, col, integer = CELL_ROLES[role]
+    if role == "value" and bad == "missing":
+        raise NotConstructible("a missing value is valid input")
+    if role == "covariate" and bad == "missing" and all(is_missing(case, *case["rows"][i], f) for f in range(len(FEATURES))):
+        raise NotConstructible("the row would be full of nans: dropped as documented, not a malformation")
+    vals = [v.item() if hasattr(v, "item") else v for v in base_columns(case)[col]]
+    vals = [None if isinstance(v, float) and v != v else v for v in vals]  # (values already missing in the base table)
+    token = {"missing": None, "plus_inf": INF, "minus_inf": -INF, "text": "n/a"}[bad]
+    vals[i] = token
+    if container in ("float64", "float32"):
+        if bad == "text":
+            raise NotConstructible("text in a float column")
+        return np.array([NAN if v is None else v for v in vals], dtype=container)
+    if container == "Float64":
+        if bad == "text":
+            raise NotConstructible("text in a Float64 column")
+        return pd.array([pd.NA if v is None else float(v) for v in vals], dtype="Float64")
+    if container == "Int64":
+        if not integer or bad != "missing":
+            raise NotConstructible("Int64 holds integers or pd.NA only")
+        return pd.array([pd.NA if v is None else int(v) for v in vals], dtype="Int64")
+    if container == "object":
+        return np.array([NAN if v is None else v for v in vals], dtype=object)
+    if container == "string":
+        if bad not in ("text", "missing"):
+            raise NotConstructible("a string column holds text: listed under 'text' and 'missing'")
+        return pd.array([pd.NA if v is None else str(v) for v in vals], dtype="string")
+    if container == "category":
+        present = [v for v in dict.fromkeys(vals) if v is not None]
+        try:
+            cats = sorted(present)
+        except TypeError:
+            cats = present
+        return pd.Categorical(vals, categories=cats)
+    raise ValueError(container)
+
+
+def crossed_malformation_name(case) -> str:
+    mal = case["mal"]
+    if mal["name"] == "id_x_dtype":
+        # two classes (one per requirement of the reader): a missing identifier / a label that is not a valid identifier
+        # (empty text, negative integer, float, text mixed with integers); the precise kind is in the stored case
+        kind = "missing" if mal["kind"].startswith("missing_") else "invalid label"
+        return f"identifier {kind},ID dtype={ID_DTYPE_CLASS[case['idtype']]}"
+    return f"{mal['role']} {mal['bad']},column dtype={mal['container']}"
+
+
 def build_frame(case) -> pd.DataFrame:
     cols = base_columns(case)
-    if case.get("mal"):
+    mal = case.get("mal")
+    if mal and mal["name"] == "id_x_dtype":
+        cols["ID"] = id_malformed_column(case, mal["kind"], mal["row"])
+    elif mal and mal["name"] == "cell_x_dtype":
+        cols[CELL_ROLES[mal["role"]][1]] = cell_malformed_column(case, mal["role"], mal["bad"], mal["container"], mal["row"])
+    elif mal:
         cols = apply_malformation(case, cols)
     df = pd.DataFrame(cols)
     if case["form"] == "index":
